@@ -83,6 +83,7 @@ func runC12(c *Ctx) {
 	c12FieldTypeChecked(c, pk)
 	c12PackageMeansPackage(c, pk)
 	c12KeptUnlessExcluded(c, pk)
+	c12ImportAfterSurvival(c, pk)
 	c12IndexTotal(c, pk)
 	batchKeyRule(c, "BATCH-KEY")
 	c12PathIndexPositional(c, pk)
